@@ -117,6 +117,24 @@ CLAIMED['C16'] = dict(
          'not verified; async/generator bodies not modelled.',
     ref='DESIGN.md 5 C16')
 
+CLAIMED['C08'] = dict(
+    text='Model of _read_metrics/_accumulate_metrics/mark_process_dead (mode chain, comparison operators, update forms, file-name pattern re-extracted each run) over any number of files/entries, abstract '
+         'values; theorems: the result equals the per-mode aggregate spec as a finite map with distinct keys (accumulate_eq_spec_partial: no series duplicated or dropped), histogram_merge_cumulative, '
+         'count_eq_inf_bucket, gauge_value_declarative (min/max/mostrecent give an extremal element; mostrecent absent iff never set), help/labels/bounds preserved, live_modes_ignore_dead, order '
+         'independence of sums under a commutative monoid. 1–4 simulated processes × 10 modes × ties/NaN/±0/dead and reused pids, collected after every step and judged by an independent reference aggregate; '
+         'thorough tier forks real workers.',
+    note='Known finding (listed): C08:gauge-label-named-pid. Hypotheses: one type and one gauge mode per metric name, le texts parse, floatToGoString injective on occurring bounds (C13). The store file is '
+         'abstracted to an ordered map (justified by C10); json key round trip and glob order trusted.',
+    ref='DESIGN.md 5 C08')
+CLAIMED['C09'] = dict(
+    text='State-machine model of the MultiProcessValue closure (pid, files, live values; every op begins with the pid check that closes files and re-binds every live value by re-reading) with the '
+         'call-order facts re-extracted from values.py each run; theorems for histories of any length with any number of identity changes incl. returning to an earlier identity: writes_only_own_files, '
+         'rebinding_reads_current, per_pid_gauge_partial, conservation_partial (sum over all identities\' files = sum of all increments in a commutative monoid). Simulated identities with a change '
+         'inserted at every position, per-file contents observed after every step; thorough tier uses real os.fork().',
+    note='Precondition of the *_partial theorems (documented, not a finding): at most one live value object per (file, key) — two same-named metrics created with registry=None, or a child handle kept '
+         'across remove(), share one cell but cache separately. Identities contain no underscore.',
+    ref='DESIGN.md 5 C09')
+
 PENDING_REASON = 'not claimed yet: model/theorems for this property are not built at this commit (work order in DESIGN.md 8); no other technique is substituted'
 
 
